@@ -18,8 +18,15 @@ open V V.Handshake
 
 /-! ### HandleSendJoin -/
 
+/-- "it is a join": an `m.room.member` event (exactly that type — not a case variant, not another state event
+    that happens to carry a `membership` field) whose content says `join`.  The property says "a join", not
+    "an event whose content.membership is join": the event TYPE is part of the clause.  (Before round 4 this
+    clause was transcribed from the code — membership only — and the handler's missing type check went unnoticed.) -/
+def isJoin (i : SendJoinIn) : Bool :=
+  i.evType == b!"m.room.member" && i.membership == some b!"join"
+
 def sendJoinGuards (i : SendJoinIn) : Bool :=
-  i.membership == some b!"join"                              -- it is a join
+  isJoin i                                                   -- it is a join
   && i.stateKey == some i.sender                             -- whose sender equals its state key
   && i.eventRoomID == i.roomID                               -- whose room matches the request
   && i.eventID == i.reqEventID                               -- whose event ID matches the request
